@@ -456,8 +456,14 @@ func runScenario(sc scenario, o *origin.Origin) (origin.Obs, *captured, error) {
 
 // sendOn sends the request-level part of sc through the (already configured) client c and
 // returns what the origin saw for exactly that request (matched by its target).
+// reqHook, when set, sees the request just before it is sent (context / trace of a sequence step)
+var reqHook func(*req.Request)
+
 func sendOn(c *req.Client, sc scenario, o *origin.Origin, target string) (origin.Obs, error) {
 	r := c.R()
+	if reqHook != nil {
+		reqHook(r)
+	}
 	for _, op := range sc.Req {
 		if op.Kind == "set" {
 			r.SetHeader(op.K, op.V)
@@ -488,7 +494,7 @@ func sendOn(c *req.Client, sc scenario, o *origin.Origin, target string) (origin
 		if !ok {
 			return origin.Obs{}, fmt.Errorf("origin saw no request")
 		}
-		if obs.Target == target || obs.Target == "" && obs.Err == "" {
+		if obs.Target == target {
 			return obs, nil
 		}
 		// a left-over of an earlier (failed) request on another connection: skip it
